@@ -310,3 +310,1083 @@ Proof.
 Qed.
 
 End Proj.
+
+(* ------------------------------------------------------------------------------------ *)
+(* C. simulation of the open-recursion bodies                                            *)
+
+Lemma flatten_target_ok c t acc vn vl idx :
+  flatten_target t acc = Some (vn, vl, idx) ->
+  expr_ok c t = true -> forallb (expr_ok c) acc = true ->
+  var_ok c vl = true /\ forallb (expr_ok c) idx = true.
+Proof.
+  revert acc. induction t; intros acc E Ht Hacc; cbn [flatten_target] in E; try discriminate.
+  - inversion E; subst. cbn [expr_ok] in Ht. split; assumption.
+  - cbn [expr_ok] in Ht. apply andb_prop in Ht. destruct Ht as [H1 H2].
+    eapply IHt1; [exact E|exact H1|]. cbn [forallb]. rewrite H2, Hacc. reflexivity.
+Qed.
+
+Lemma bind_params_keep c fid ls np ps vs k acc :
+  params_ok c ls np = true -> 0 <= k -> k + Z.of_nat (length ps) <= Z.of_nat np ->
+  forallb (keep_slot c) acc = true ->
+  forallb (keep_slot c) (bind_params fid ls ps vs k acc) = true.
+Proof.
+  intros Hp. revert vs k acc. induction ps as [|p ps IH]; intros vs k acc Hk Hle Hacc; [exact Hacc|].
+  cbn [bind_params]. destruct vs as [|v vs]; [exact Hacc|].
+  apply IH; [lia|cbn [length] in Hle; lia|]. cbn [forallb]. rewrite Hacc, andb_true_r.
+  unfold keep_slot, dead_slot. cbn [s_id]. destruct fid; [|reflexivity].
+  apply negb_true_iff. destruct (memz (ls + k) (c_dead c)) eqn:E; [|reflexivity].
+  unfold memz in E. apply existsb_exists in E. destruct E as [d [Hd E]]. apply Z.eqb_eq in E. subst d.
+  unfold params_ok in Hp. rewrite forallb_forall in Hp. specialize (Hp _ Hd).
+  apply negb_true_iff in Hp. apply andb_false_iff in Hp. cbn [length] in Hle.
+  destruct Hp as [Hp|Hp]; [apply Z.leb_gt in Hp|apply Z.ltb_ge in Hp]; lia.
+Qed.
+
+Lemma interp_segs_penv c segs e :
+  forallb (seg_ok c) segs = true -> interp_segs (penv c e) segs = interp_segs e segs.
+Proof.
+  induction segs as [|sg r IH]; [reflexivity|]. cbn [forallb]. intros H. apply andb_prop in H.
+  destruct H as [H1 H2]. destruct sg as [b|vn vl]; cbn [interp_segs]; rewrite (IH H2); [reflexivity|].
+  cbn [seg_ok] in H1. rewrite (lookup_env_penv c _ _ _ H1). reflexivity.
+Qed.
+
+Section Sim.
+Variable c : pcfg.
+Variable eps : f64.
+Variable SL : Prop.
+Hypothesis Hcfg : cfg_ok c = true.
+
+Notation sim := (simM SL (pj c) (okS c)).
+
+Ltac sret x := apply (sim_ret SL (pj c) (okS c) x); unfold okS in *; cbn [snd] in *; auto using st_ok_with_env, st_ok_pop.
+Ltac sbind H :=
+  eapply sim_bind;
+  [ apply H; try assumption
+  | let v := fresh "v" in let s := fresh "s" in let Hok := fresh "Hok" in
+    intros [v s] Hok; unfold okS in Hok; cbn [pj fst snd] in * ].
+Ltac slift :=
+  eapply sim_bind; [ apply sim_lift | let x := fresh "x" in intros x _; cbn beta ].
+
+Section Expr.
+Variable ev1 ev2 : expr -> st -> M (value * st).
+Variable eb1 eb2 : list stmt -> st -> M (flow * st).
+Hypothesis Hev : forall e s, expr_ok c e = true -> st_ok c s -> sim (ev1 e (proj c s)) (ev2 e s).
+Hypothesis Heb : forall b s, block_ok c true b = true -> st_ok c s -> sim (eb1 b (proj c s)) (eb2 b s).
+
+Lemma evals_sim es s :
+  forallb (expr_ok c) es = true -> st_ok c s ->
+  sim (evals_with ev1 es (proj c s)) (evals_with ev2 es s).
+Proof.
+  revert s. induction es as [|a r IH]; intros s H Hs; cbn [evals_with forallb] in *.
+  - sret (@nil value, s).
+  - apply andb_prop in H. destruct H as [Ha Hr].
+    sbind Hev. sbind IH. sret (v :: v0, s1).
+Qed.
+
+Lemma indices_sim es s :
+  forallb (expr_ok c) es = true -> st_ok c s ->
+  sim (indices_with ev1 es (proj c s)) (indices_with ev2 es s).
+Proof.
+  revert s. induction es as [|a r IH]; intros s H Hs; cbn [indices_with forallb] in *.
+  - sret (@nil Z, s).
+  - apply andb_prop in H. destruct H as [Ha Hr].
+    sbind Hev. slift. sbind IH. sret (x :: v0, s1).
+Qed.
+
+Lemma mutate_sim o op s :
+  expr_ok c o = true -> st_ok c s ->
+  sim (mutate_with ev1 o op (proj c s)) (mutate_with ev2 o op s).
+Proof.
+  intros Ho Hs. destruct o; cbn [mutate_with]; try apply sim_err.
+  - cbn [expr_ok] in Ho. cbn [proj env]. rewrite (lookup_env_penv c _ _ _ Ho).
+    destruct (lookup_env l n (env s)) as [root|]; [|apply sim_panic].
+    slift. destruct x as [root' r]. rewrite (assign_env_penv c _ _ _ _ Ho).
+    destruct (assign_env l n root' (env s)) as [e'|]; cbn [option_map]; [|apply sim_panic].
+    sret (r, with_env e' s).
+  - destruct (flatten_target (EIdx o1 o2) []) as [[[vn vl] idx]|] eqn:E; [|apply sim_err].
+    destruct (flatten_target_ok c _ _ _ _ _ E Ho eq_refl) as [Hv Hi].
+    sbind indices_sim. cbn [proj env]. rewrite (lookup_env_penv c _ _ _ Hv).
+    destruct (lookup_env vl vn (env s0)) as [root|]; [|apply sim_panic].
+    slift. destruct x as [root' r]. rewrite (assign_env_penv c _ _ _ _ Hv).
+    destruct (assign_env vl vn root' (env s0)) as [e'|]; cbn [option_map]; [|apply sim_panic].
+    sret (r, with_env e' s0).
+Qed.
+
+
+Ltac leaf :=
+  first [ apply sim_err | apply sim_panic | apply sim_unsupp | apply sim_fuel
+        | match goal with
+          | |- simM _ _ _ (OkM (?v, proj c ?s)) (OkM (_, ?s)) => sret (v, s)
+          end ].
+
+Lemma string_call_sim str f args s :
+  forallb (expr_ok c) args = true -> st_ok c s ->
+  sim (string_call ev1 str f args (proj c s)) (string_call ev2 str f args s).
+Proof.
+  intros Ha Hs. unfold string_call.
+  destruct (negb (mem_name f string_methods)); [leaf|].
+  destruct (bytes_eqb f n_len); [leaf|].
+  destruct (bytes_eqb f n_slice).
+  { destruct args as [|a0 [|a1 r]]; try leaf. cbn [forallb] in Ha.
+    apply andb_prop in Ha. destruct Ha as [H0 Ha]. apply andb_prop in Ha. destruct Ha as [H1 _].
+    sbind Hev. sbind Hev. destruct v, v0; leaf. }
+  destruct (bytes_eqb f n_to_uppercase). { destruct (is_ascii str); leaf. }
+  destruct (bytes_eqb f n_to_lowercase). { destruct (is_ascii str); leaf. }
+  destruct (bytes_eqb f n_trim); [leaf|].
+  destruct (bytes_eqb f n_to_number); [leaf|].
+  destruct (bytes_eqb f n_find).
+  { destruct args as [|a0 r]; try leaf. cbn [forallb] in Ha. apply andb_prop in Ha. destruct Ha as [H0 _].
+    sbind Hev. destruct v; try leaf. destruct (find str s1); leaf. }
+  destruct (bytes_eqb f n_replace).
+  { destruct args as [|a0 [|a1 r]]; try leaf. cbn [forallb] in Ha.
+    apply andb_prop in Ha. destruct Ha as [H0 Ha]. apply andb_prop in Ha. destruct Ha as [H1 _].
+    sbind Hev. sbind Hev. destruct v, v0; try leaf. destruct (replace str s2 s3); leaf. }
+  destruct args as [|a0 r]; try leaf. cbn [forallb] in Ha. apply andb_prop in Ha. destruct Ha as [H0 _].
+  sbind Hev. destruct v; leaf.
+Qed.
+
+Lemma array_call_sim items f args s :
+  forallb (expr_ok c) args = true -> st_ok c s ->
+  sim (array_call ev1 items f args (proj c s)) (array_call ev2 items f args s).
+Proof.
+  intros Ha Hs. unfold array_call.
+  destruct (negb (mem_name f array_methods)); [leaf|].
+  destruct (bytes_eqb f n_len); [leaf|].
+  destruct (bytes_eqb f n_join); [|leaf].
+  destruct args as [|a0 r]; try leaf. cbn [forallb] in Ha. apply andb_prop in Ha. destruct Ha as [H0 _].
+  sbind Hev. destruct v; leaf.
+Qed.
+
+Lemma member_call_sim o f args s :
+  expr_ok c o = true -> forallb (expr_ok c) args = true -> st_ok c s ->
+  sim (member_call ev1 o f args (proj c s)) (member_call ev2 o f args s).
+Proof.
+  intros Ho Ha Hs. unfold member_call.
+  destruct (mem_name f array_mut_methods).
+  { destruct (bytes_eqb f n_push).
+    - destruct args as [|a0 r]; try leaf. cbn [forallb] in Ha. apply andb_prop in Ha. destruct Ha as [H0 _].
+      sbind Hev. apply mutate_sim; assumption.
+    - destruct (bytes_eqb f n_pop); apply mutate_sim; assumption. }
+  destruct (mem_name f proc_mut_names); [leaf|].
+  sbind Hev. destruct v; try leaf.
+  - destruct (mem_name f number_methods); leaf.
+  - apply string_call_sim; assumption.
+  - apply array_call_sim; assumption.
+Qed.
+
+Lemma user_call_sim fname args target s :
+  call_ok c target = true -> forallb (expr_ok c) args = true -> st_ok c s ->
+  sim (user_call ev1 eb1 fname args target (proj c s)) (user_call ev2 eb2 fname args target s).
+Proof.
+  intros Hc Ha Hs. unfold user_call. cbn [proj fns].
+  rewrite (lookup_fn_pfns c target fname (fns s)
+             (fun f Hm => proj1 (call_ok_keep c Hcfg target fname f Hc Hm))).
+  destruct (lookup_fn target fname (fns s)) as [fd|] eqn:E; [|leaf].
+  destruct (lookup_fn_In _ _ _ _ E) as [sc [Hsc [Hfd Hm]]].
+  destruct (Hs sc fd Hsc Hfd (proj2 (call_ok_keep c Hcfg target fname fd Hc Hm))) as [Hbody Hpar].
+  sbind evals_sim.
+  destruct (negb (Nat.eqb (length v) (length (f_params fd)))); [leaf|].
+  destruct (match f_id fd with Some _ => f_llen fd <? Z.of_nat (length (f_params fd)) | None => false end); [leaf|].
+  cbv zeta.
+  rewrite <- (proj_push c).
+  2:{ apply (bind_params_keep c _ _ (length (f_params fd))); [exact Hpar|lia|lia|reflexivity]. }
+  sbind Heb. { apply st_ok_push. exact Hok. }
+  rewrite <- (proj_pop c).
+  destruct v0; leaf.
+Qed.
+
+Lemma builtin_call_sim g args s :
+  forallb (expr_ok c) args = true -> st_ok c s ->
+  sim (builtin_call ev1 g args (proj c s)) (builtin_call ev2 g args s).
+Proof.
+  intros Ha Hs. unfold builtin_call. sbind evals_sim.
+  destruct v as [|v1 [|v2 r]]; try leaf.
+  destruct g; try leaf.
+  apply (sim_out SL (pj c) (okS c) [v1] (VNull, s0)). exact Hok.
+Qed.
+
+Lemma eval_body_sim e s :
+  expr_ok c e = true -> st_ok c s ->
+  sim (eval_body eps ev1 eb1 e (proj c s)) (eval_body eps ev2 eb2 e s).
+Proof.
+  intros He Hs. destruct e; cbn [eval_body expr_ok] in *; try leaf.
+  - (* EInterp *)
+    cbn [proj env]. rewrite (interp_segs_penv c _ _ He). slift. sret (VStr x, s).
+  - (* EVar *)
+    cbn [proj env]. rewrite (lookup_env_penv c _ _ _ He).
+    destruct (lookup_env l n (env s)); leaf.
+  - (* EBin *)
+    apply andb_prop in He. destruct He as [H1 H2].
+    destruct op.
+    1-5, 8-10: (sbind Hev; sbind Hev; slift; sret (x, s1)).
+    + sbind Hev. destruct v as [| |[|]| |]; try leaf; (sbind Hev; destruct v; leaf).
+    + sbind Hev. destruct v as [| |[|]| |]; try leaf; (sbind Hev; destruct v; leaf).
+  - (* EUn *)
+    sbind Hev. destruct op, v; leaf.
+  - (* EArr *)
+    sbind evals_sim. sret (VArr v, s0).
+  - (* EIdx *)
+    apply andb_prop in He. destruct He as [H1 H2].
+    sbind Hev. sbind Hev. destruct v; try leaf. destruct v0; try leaf.
+    destruct (negb (is_finite x) || negb (is_int x)); [leaf|]. cbv zeta.
+    destruct ((to_isize x <? 0) || (len_z vs <=? to_isize x)); [leaf|].
+    destruct (nth_value vs (Z.to_nat (to_isize x))); leaf.
+  - (* ECall *)
+    apply andb_prop in He. destruct He as [Ha Hc].
+    destruct e; try leaf.
+    + destruct (global_builtin n).
+      * apply builtin_call_sim; assumption.
+      * apply user_call_sim; assumption.
+    + apply member_call_sim; assumption.
+Qed.
+
+End Expr.
+
+Lemma block_ok_cons live x r :
+  block_ok c live (x :: r) = item_ok c live x && block_ok c (next_live c live x) r.
+Proof. reflexivity. Qed.
+
+Lemma block_ok_funs live b :
+  block_ok c live b = true -> forall x, In x b -> is_fun x = true -> stmt_ok c x = true.
+Proof.
+  revert live. induction b as [|a r IH]; intros live H x Hin Hf; [destruct Hin|].
+  rewrite block_ok_cons in H. apply andb_prop in H. destruct H as [Hi Hr].
+  destruct Hin as [E|Hin]; [subst a|eapply IH; eauto].
+  unfold item_ok, item_ok_with in Hi. rewrite Hf in Hi. apply andb_prop in Hi. exact (proj1 Hi).
+Qed.
+
+Lemma sim_strengthen {A} (g : A -> A) (ok ok' : A -> Prop) (m1 m2 : M A) :
+  simM SL g ok m1 m2 -> (forall o a, m2 = (o, Ok a) -> ok' a) ->
+  simM SL g (fun a => ok a /\ ok' a) m1 m2.
+Proof.
+  intros [H|[E H]] H'; [left; exact H|right]. split; [exact E|]. intros o a Ea. split; eauto.
+Qed.
+
+Lemma tolr_bind {A B} (m : M A) (f : A -> M B) : tolr (snd m) -> tolr (snd (bindM m f)).
+Proof. destruct m as [o r]. destruct r; cbn; try contradiction; auto. Qed.
+
+Lemma bindM_ret_nil {A B} (a : A) (f : A -> M B) : bindM ([], Ok a) f = f a.
+Proof. cbn. destruct (f a); reflexivity. Qed.
+
+Section Stmt.
+Variable ev1 ev2 : expr -> st -> M (value * st).
+Variable el1 el2 : expr -> list stmt -> st -> M (flow * st).
+Variable eb1 eb2 : list stmt -> st -> M (flow * st).
+Hypothesis Hev : forall e s, expr_ok c e = true -> st_ok c s -> sim (ev1 e (proj c s)) (ev2 e s).
+Hypothesis Hel : forall cnd b s, expr_ok c cnd = true -> block_ok c true b = true -> st_ok c s ->
+                                 sim (el1 cnd b (proj c s)) (el2 cnd b s).
+Hypothesis Heb : forall b s, block_ok c true b = true -> st_ok c s -> sim (eb1 b (proj c s)) (eb2 b s).
+
+Ltac leaf2 :=
+  first [ apply sim_err | apply sim_panic | apply sim_unsupp | apply sim_fuel
+        | match goal with
+          | |- simM _ _ _ (OkM (?v, proj c ?s)) (OkM (_, ?s)) => sret (v, s)
+          end ].
+
+Lemma exec_body_sim t s :
+  stmt_ok c t = true -> st_ok c s ->
+  sim (exec_body ev1 el1 eb1 t (proj c s)) (exec_body ev2 el2 eb2 t s).
+Proof.
+  intros Ht Hs. destruct t; cbn [exec_body stmt_ok] in *; try leaf2.
+  - (* SMake *)
+    apply andb_prop in Ht. destruct Ht as [Hv He]. sbind Hev.
+    cbn [proj env]. rewrite (define_env_penv c _ _ _ _ Hv). rewrite <- (proj_with_env c). leaf2.
+  - (* SSet *)
+    apply andb_prop in Ht. destruct Ht as [Hv He]. sbind Hev.
+    cbn [proj env]. rewrite (assign_env_penv c _ _ _ _ Hv).
+    destruct (assign_env l n v (env s0)) as [e'|]; cbn [option_map]; [|leaf2].
+    rewrite <- (proj_with_env c). leaf2.
+  - (* SSetIdx *)
+    apply andb_prop in Ht. destruct Ht as [Htg He]. sbind Hev.
+    destruct (flatten_target target []) as [[[vn vl] idx]|] eqn:E; [|leaf2].
+    destruct (flatten_target_ok c _ _ _ _ _ E Htg eq_refl) as [Hv Hi].
+    sbind (indices_sim ev1 ev2 Hev). cbn [proj env]. rewrite (lookup_env_penv c _ _ _ Hv).
+    destruct (lookup_env vl vn (env s1)) as [root|]; [|leaf2].
+    slift. rewrite (assign_env_penv c _ _ _ _ Hv).
+    destruct (assign_env vl vn x (env s1)) as [e'|]; cbn [option_map]; [|leaf2].
+    rewrite <- (proj_with_env c). leaf2.
+  - (* SIf *)
+    apply andb_prop in Ht. destruct Ht as [Ht Hel']. apply andb_prop in Ht. destruct Ht as [Hc Hth].
+    sbind Hev. slift. destruct x.
+    + apply Heb; assumption.
+    + destruct f; [apply Heb; assumption|leaf2].
+  - (* SLoop *)
+    apply andb_prop in Ht. destruct Ht as [Hc Hb]. apply Hel; assumption.
+  - (* SBlock *)
+    apply Heb; assumption.
+  - (* SRet *)
+    destruct e; [|leaf2]. sbind Hev. leaf2.
+  - (* SExpr *)
+    sbind Hev. leaf2.
+Qed.
+
+Lemma loop_body_sim cnd b s :
+  expr_ok c cnd = true -> block_ok c true b = true -> st_ok c s ->
+  sim (loop_body ev1 el1 eb1 cnd b (proj c s)) (loop_body ev2 el2 eb2 cnd b s).
+Proof.
+  intros Hc Hb Hs. unfold loop_body. sbind Hev. slift.
+  destruct (negb x); [leaf2|]. sbind Heb.
+  destruct v0; try leaf2; apply Hel; assumption.
+Qed.
+
+End Stmt.
+
+Section Block.
+Variable ex1 ex2 : stmt -> st -> M (flow * st).
+Hypothesis Hex : forall t s, stmt_ok c t = true -> st_ok c s -> sim (ex1 t (proj c s)) (ex2 t s).
+Hypothesis Hpruned : forall t s, pruned_ok c t = true -> st_ok c s ->
+  (SL /\ tolr (snd (ex2 t s))) \/
+  exists s', ex2 t s = ([], Ok (FNormal, s')) /\ proj c s' = proj c s /\ st_ok c s'.
+Hypothesis Hnn : forall t s o s', nn_p (c_p2 c) t = true -> ex2 t s = (o, Ok (FNormal, s')) -> False.
+
+Lemma pruned_not_nn t : pruned_ok c t = true -> nn_p (c_p2 c) t = false.
+Proof. destruct t; cbn; try discriminate; reflexivity. Qed.
+
+Lemma stmts_sim ts s :
+  block_ok c true ts = true -> st_ok c s ->
+  sim (stmts_with (c_p1 c) ex1 ts (proj c s)) (stmts_with (c_p2 c) ex2 ts s).
+Proof.
+  revert s. induction ts as [|a r IH]; intros s Hb Hs; cbn [stmts_with].
+  - rewrite <- (proj_pop c). sret (FNormal, pop_scope s).
+  - rewrite block_ok_cons in Hb. apply andb_prop in Hb. destruct Hb as [Hi Hr].
+    unfold item_ok, item_ok_with in Hi. apply andb_prop in Hi. destruct Hi as [_ Hi].
+    unfold next_live in Hr. cbn [andb] in Hr.
+    destruct (in_plan_stmt (c_p2 c) (stmt_sid a)) eqn:E2.
+    + rewrite (cfg_sub_stmt c Hcfg _ E2). rewrite andb_false_r in Hr. apply IH; assumption.
+    + rewrite andb_true_r in Hr. destruct (in_plan_stmt (c_p1 c) (stmt_sid a)) eqn:E1.
+      * rewrite (pruned_not_nn _ Hi) in Hr.
+        destruct (Hpruned a s Hi Hs) as [[HS Ht] | [s' [E [Ep Hs']]]].
+        -- left. split; [exact HS|]. apply tolr_bind. exact Ht.
+        -- rewrite E, bindM_ret_nil. rewrite <- Ep. apply IH; assumption.
+      * eapply sim_bind.
+        -- apply (sim_strengthen (pj c) (okS c)
+                    (fun p => fst p = FNormal -> nn_p (c_p2 c) a = false)).
+           ++ apply Hex; assumption.
+           ++ intros o [fl s'] E Hfl. cbn [fst] in Hfl. subst fl.
+              destruct (nn_p (c_p2 c) a) eqn:En; [|reflexivity]. exfalso. eapply Hnn; eauto.
+        -- intros [fl s'] [Hok Hfl]. unfold okS in Hok. cbn [pj fst snd] in *.
+           destruct fl.
+           ++ rewrite (Hfl eq_refl) in Hr. apply IH; assumption.
+           ++ rewrite <- (proj_pop c). sret (FReturn v, pop_scope s').
+           ++ rewrite <- (proj_pop c). sret (FBreak, pop_scope s').
+           ++ rewrite <- (proj_pop c). sret (FNext, pop_scope s').
+Qed.
+
+Lemma hoist_sim b s :
+  (forall x, In x b -> is_fun x = true -> stmt_ok c x = true) ->
+  fns s <> [] -> st_ok c s ->
+  exists s2, hoist (c_p2 c) b s = Ok s2 /\ hoist (c_p1 c) b (proj c s) = Ok (proj c s2) /\ st_ok c s2.
+Proof.
+  revert s. induction b as [|a r IH]; intros s Hf Hne Hs.
+  - exists s. cbn. auto.
+  - assert (Hr : forall x, In x r -> is_fun x = true -> stmt_ok c x = true)
+      by (intros x Hx; apply Hf; right; exact Hx).
+    destruct a; cbn [hoist]; try (apply IH; assumption).
+    specialize (Hf _ (or_introl eq_refl) eq_refl).
+    destruct (in_plan_fn (c_p2 c) fid) eqn:E2.
+    { rewrite (cfg_sub_fn c Hcfg _ E2). apply IH; assumption. }
+    destruct (fns s) as [|sc rest] eqn:Efs; [contradiction|].
+    set (f := {| f_id := fid; f_name := n; f_params := ps; f_body := body; f_lstart := lstart; f_llen := llen |}).
+    set (s' := {| env := env s; fns := (f :: sc) :: rest |}).
+    assert (Hs' : st_ok c s').
+    { intros sc0 f0 Hin Hf0. cbn [fns s'] in Hin. destruct Hin as [E|Hin].
+      - subst sc0. destruct Hf0 as [E|Hf0].
+        + subst f0. intros Hl. cbn [f_id f_body f_params f_lstart f] in *. cbn [stmt_ok] in Hf.
+          rewrite Hl in Hf. apply andb_prop in Hf. exact Hf.
+        + apply (Hs sc f0); [rewrite Efs; left; reflexivity|exact Hf0].
+      - apply (Hs sc0 f0); [rewrite Efs; right; exact Hin|exact Hf0]. }
+    assert (Hne' : fns s' <> []) by (cbn; discriminate).
+    destruct (IH s' Hr Hne' Hs') as [s2 [H2 [H1 Hs2]]].
+    exists s2. split; [exact H2|]. split; [|exact Hs2].
+    destruct (in_plan_fn (c_p1 c) fid) eqn:E1.
+    + (* pruned by c_p1 only: the projection drops the definition *)
+      rewrite <- H1. f_equal. unfold proj, s'. cbn [env fns]. rewrite Efs. cbn [pfns map filter].
+      assert (Hk : keep_fn c f = false) by (unfold keep_fn, only1_fn, f; cbn [f_id]; rewrite E1, E2; reflexivity).
+      rewrite Hk. reflexivity.
+    + cbn [proj fns]. rewrite Efs. cbn [pfns map].
+      rewrite <- H1. f_equal. unfold proj, s'. cbn [env fns pfns map filter].
+      assert (Hk : keep_fn c f = true) by (unfold keep_fn, only1_fn, f; cbn [f_id]; rewrite E1; reflexivity).
+      rewrite Hk. reflexivity.
+Qed.
+
+Lemma block_body_sim b s :
+  block_ok c true b = true -> st_ok c s ->
+  sim (block_body (c_p1 c) ex1 b (proj c s)) (block_body (c_p2 c) ex2 b s).
+Proof.
+  intros Hb Hs. unfold block_body.
+  destruct (hoist_sim b (push_scope [] s) (block_ok_funs _ _ Hb)) as [s2 [H2 [H1 Hs2]]].
+  { cbn. discriminate. } { apply st_ok_push. exact Hs. }
+  rewrite (proj_push c) in H1 by reflexivity. rewrite H1, H2.
+  unfold lift. rewrite !bindM_ret_nil. apply stmts_sim; assumption.
+Qed.
+
+End Block.
+End Sim.
+
+(* ------------------------------------------------------------------------------------ *)
+(* D. facts about one run                                                                 *)
+
+Lemma bindM_inv {A B} (m : M A) (f : A -> M B) o b :
+  bindM m f = (o, Ok b) -> exists o1 a o2, m = (o1, Ok a) /\ f a = (o2, Ok b) /\ o = o1 ++ o2.
+Proof.
+  destruct m as [o1 r]. destruct r; cbn; try discriminate.
+  destruct (f a) as [o2 r2] eqn:E. intros H. inversion H; subst. exists o1, a, o2. auto.
+Qed.
+
+Lemma bindM_fuel {A B} (f : A -> M B) : bindM ([], Fuel) f = ([], Fuel).
+Proof. reflexivity. Qed.
+
+(* a never-normal statement never completes normally *)
+Lemma stmts_nn P ex :
+  (forall t s o s', nn_p P t = true -> ex t s = (o, Ok (FNormal, s')) -> False) ->
+  forall b s o s',
+    existsb (fun x => nn_p P x && negb (in_plan_stmt P (stmt_sid x))) b = true ->
+    stmts_with P ex b s = (o, Ok (FNormal, s')) -> False.
+Proof.
+  intros Hex. induction b as [|x r IH]; intros s o s' He Hr; cbn [existsb] in He; [discriminate|].
+  cbn [stmts_with] in Hr. destruct (in_plan_stmt P (stmt_sid x)) eqn:Ep.
+  - rewrite andb_false_r in He. cbn [orb] in He. eapply IH; eauto.
+  - rewrite andb_true_r in He. apply bindM_inv in Hr. destruct Hr as [o1 [[fl s1] [o2 [E1 [E2 _]]]]].
+    destruct fl; try discriminate E2.
+    destruct (nn_p P x) eqn:En.
+    + eapply Hex; eauto.
+    + cbn [orb] in He. eapply IH; eauto.
+Qed.
+
+Lemma nn_sound P eps n :
+  (forall t s o s', nn_p P t = true -> exec P eps n t s = (o, Ok (FNormal, s')) -> False) /\
+  (forall b s o s',
+      existsb (fun x => nn_p P x && negb (in_plan_stmt P (stmt_sid x))) b = true ->
+      exec_block P eps n b s = (o, Ok (FNormal, s')) -> False).
+Proof.
+  induction n as [|n [IHt IHb]].
+  - split; intros; [rewrite exec_0 in *|rewrite exec_block_0 in *]; discriminate.
+  - split.
+    + intros t s o s' Hn Hr. rewrite exec_S in Hr.
+      destruct t; cbn [nn_p] in Hn; try discriminate; cbn [exec_body] in Hr.
+      * destruct f as [el|]; [|discriminate]. apply andb_prop in Hn. destruct Hn as [H1 H2].
+        apply bindM_inv in Hr. destruct Hr as (o1 & [cv s1] & o2 & E1 & E2 & _).
+        apply bindM_inv in E2. destruct E2 as (o3 & b & o4 & E3 & E4 & _).
+        destruct b; [exact (IHb _ _ _ _ H1 E4)|exact (IHb _ _ _ _ H2 E4)].
+      * eapply IHb; eauto.
+      * destruct e.
+        -- apply bindM_inv in Hr. destruct Hr as (o1 & [v s1] & o2 & E1 & E2 & _). discriminate E2.
+        -- discriminate Hr.
+    + intros b s o s' He Hr. rewrite exec_block_S in Hr. unfold block_body in Hr.
+      apply bindM_inv in Hr. destruct Hr as (o1 & s1 & o2 & E1 & E2 & _). eapply stmts_nn; eauto.
+Qed.
+
+(* closed, typed literal expressions evaluate to a value of their type *)
+Lemma interp_lit e segs : forallb is_seglit segs = true -> exists b, interp_segs e segs = Ok b.
+Proof.
+  induction segs as [|sg r IH]; cbn [forallb interp_segs]; [eauto|].
+  destruct sg; cbn [is_seglit andb]; [|discriminate]. intros H. destruct (IH H) as [b E]. rewrite E. eauto.
+Qed.
+
+Lemma interp_res e segs : (exists b, interp_segs e segs = Ok b) \/ interp_segs e segs = Panic PSegVar.
+Proof.
+  induction segs as [|sg r IH]; cbn [interp_segs]; [left; eauto|]. destruct sg as [b|vn vl].
+  - destruct IH as [[b' E]|E]; rewrite E; [left; eauto|right; reflexivity].
+  - destruct (lookup_env vl vn e); [|right; reflexivity].
+    destruct IH as [[b' E]|E]; rewrite E; [left; eauto|right; reflexivity].
+Qed.
+
+Lemma binop_typed eps op l r ta tb t :
+  bin_ty op ta tb = Some t -> has_ty l ta = true -> has_ty r tb = true ->
+  match op with
+  | And | Or => True
+  | _ => exists v, binop_values eps op l r = Ok v /\ has_ty v t = true
+  end.
+Proof.
+  destruct op, ta, tb; cbn [bin_ty boolish andb]; try discriminate; try (intros; exact I);
+    intros E; inversion E; subst;
+    destruct l; cbn [has_ty]; try discriminate; intros _;
+    destruct r; cbn [has_ty]; try discriminate; intros _;
+    cbn; eexists; split; reflexivity.
+Qed.
+
+Definition lit_res (P : plan) (eps : f64) (n : nat) (e : expr) (s : st) (t : lty) : Prop :=
+  eval P eps n e s = ([], Fuel) \/
+  exists v, eval P eps n e s = ([], Ok (v, s)) /\ has_ty v t = true.
+
+Lemma evals_lit (ev : expr -> st -> M (value * st)) :
+  (forall e s t, lit_ty e = Some t ->
+                 ev e s = ([], Fuel) \/ exists v, ev e s = ([], Ok (v, s)) /\ has_ty v t = true) ->
+  forall es s,
+    forallb (fun x => match lit_ty x with Some _ => true | None => false end) es = true ->
+    evals_with ev es s = ([], Fuel) \/ exists vs, evals_with ev es s = ([], Ok (vs, s)).
+Proof.
+  intros Hev. induction es as [|a r IH]; intros s H; cbn [evals_with forallb] in *.
+  - right. eexists. reflexivity.
+  - apply andb_prop in H. destruct H as [Ha Hr]. destruct (lit_ty a) as [t|] eqn:Et; [|discriminate].
+    destruct (Hev a s t Et) as [F|[v [E _]]]; rewrite ?F, ?E; [left; reflexivity|].
+    rewrite bindM_ret_nil. destruct (IH s Hr) as [F|[vs E']]; rewrite ?F, ?E'; [left; reflexivity|].
+    rewrite bindM_ret_nil. right. eexists. reflexivity.
+Qed.
+
+Lemma lit_ty_eval P eps n : forall e s t, lit_ty e = Some t -> lit_res P eps n e s t.
+Proof.
+  unfold lit_res. induction n as [|n IH]; intros e s t H; [left; reflexivity|].
+  rewrite eval_S. destruct e; cbn [lit_ty] in H; try discriminate.
+  - inversion H; subst. right. eexists. split; reflexivity.
+  - inversion H; subst. right. eexists. split; reflexivity.
+  - (* EInterp *)
+    destruct (forallb is_seglit segs) eqn:Es; [|discriminate]. inversion H; subst.
+    destruct (interp_lit (env s) segs Es) as [b E]. cbn [eval_body]. rewrite E.
+    unfold lift. rewrite bindM_ret_nil. right. eexists. split; reflexivity.
+  - inversion H; subst. right. eexists. split; reflexivity.
+  - inversion H; subst. right. eexists. split; reflexivity.
+  - (* EBin *)
+    destruct (lit_ty e1) as [ta|] eqn:Ea; [|discriminate].
+    destruct (lit_ty e2) as [tb|] eqn:Eb; [|discriminate].
+    pose proof (binop_typed eps op) as Hop.
+    destruct (IH e1 s ta Ea) as [F|[l [El Hl]]].
+    { destruct op; cbn [eval_body]; rewrite F; left; reflexivity. }
+    destruct (IH e2 s tb Eb) as [F|[r [Er Hr]]].
+    { destruct op; cbn [eval_body]; rewrite El, bindM_ret_nil; try (rewrite F; left; reflexivity);
+        destruct ta; cbn in H; try discriminate; destruct l; try discriminate Hl;
+        try (destruct b); try (rewrite F; left; reflexivity); right; eexists; split; try reflexivity;
+        destruct tb; cbn in H; try discriminate; inversion H; reflexivity. }
+    specialize (Hop l r ta tb t H Hl Hr).
+    destruct op; cbn [eval_body]; rewrite El, bindM_ret_nil;
+      try (rewrite Er, bindM_ret_nil; destruct Hop as [v [Ev Hv]]; rewrite Ev; unfold lift;
+           rewrite bindM_ret_nil; right; eexists; split; [reflexivity|exact Hv]).
+    + (* And *)
+      destruct ta, tb; cbn in H; try discriminate; inversion H; subst;
+        destruct l; try discriminate Hl; try destruct b;
+        try (right; eexists; split; reflexivity);
+        rewrite Er, bindM_ret_nil; destruct r; try discriminate Hr; right; eexists; split; reflexivity.
+    + (* Or *)
+      destruct ta, tb; cbn in H; try discriminate; inversion H; subst;
+        destruct l; try discriminate Hl; try destruct b;
+        try (right; eexists; split; reflexivity);
+        rewrite Er, bindM_ret_nil; destruct r; try discriminate Hr; right; eexists; split; reflexivity.
+  - (* EUn *)
+    destruct op.
+    + destruct (lit_ty e) as [ta|] eqn:Ea; [|discriminate].
+      destruct (boolish ta) eqn:Eb; [|discriminate]. inversion H; subst.
+      destruct (IH e s ta Ea) as [F|[v [Ev Hv]]]; cbn [eval_body]; rewrite ?F, ?Ev; [left; reflexivity|].
+      rewrite bindM_ret_nil. destruct ta; try discriminate Eb; destruct v; try discriminate Hv;
+        right; eexists; split; reflexivity.
+    + destruct (lit_ty e) as [ta|] eqn:Ea; [|discriminate]. destruct ta; try discriminate. inversion H; subst.
+      destruct (IH e s TNum Ea) as [F|[v [Ev Hv]]]; cbn [eval_body]; rewrite ?F, ?Ev; [left; reflexivity|].
+      rewrite bindM_ret_nil. destruct v; try discriminate Hv. right; eexists; split; reflexivity.
+  - (* EArr *)
+    match type of H with (if ?b then _ else _) = _ => destruct b eqn:Es end; [|discriminate].
+    inversion H; subst. cbn [eval_body].
+    destruct (evals_lit (eval P eps n) IH es s Es) as [F|[vs E]]; rewrite ?F, ?E; [left; reflexivity|].
+    rewrite bindM_ret_nil. right. eexists. split; reflexivity.
+Qed.
+
+Lemma evals_pt (ev : expr -> st -> M (value * st)) :
+  (forall e s, pure_total e = true ->
+               exists r, ev e s = ([], r) /\ (tolr r \/ exists v, r = Ok (v, s))) ->
+  forall es s, forallb pure_total es = true ->
+    exists r, evals_with ev es s = ([], r) /\ (tolr r \/ exists vs, r = Ok (vs, s)).
+Proof.
+  intros Hev. induction es as [|a r IH]; intros s H; cbn [evals_with forallb] in *.
+  - eexists. split; [reflexivity|]. right. eexists. reflexivity.
+  - apply andb_prop in H. destruct H as [Ha Hr].
+    destruct (Hev a s Ha) as [ra [E [T|[v Ev]]]]; rewrite E.
+    + exists (match ra with Ok _ => Fuel | Err e => Err e | Panic p => Panic p | Fuel => Fuel | Unsupp => Unsupp end).
+      destruct ra; cbn in T; try contradiction; cbn; split; auto.
+    + subst ra. rewrite bindM_ret_nil. destruct (IH s Hr) as [rr [E' [T|[vs Evs]]]]; rewrite E'.
+      * exists (match rr with Ok _ => Fuel | Err e => Err e | Panic p => Panic p | Fuel => Fuel | Unsupp => Unsupp end).
+        destruct rr; cbn in T; try contradiction; cbn; split; auto.
+      * subst rr. rewrite bindM_ret_nil. eexists. split; [reflexivity|]. right. eexists. reflexivity.
+Qed.
+
+(* C03 pure_notrap_total: a total pure expression evaluates, in any state, without output
+   and without changing the state, to a value — or the run is out of fuel / a variable it
+   reads is not there *)
+Lemma pure_total_eval P eps n : forall e s, pure_total e = true ->
+  exists r, eval P eps n e s = ([], r) /\ (tolr r \/ exists v, r = Ok (v, s)).
+Proof.
+  induction n as [|n IH]; intros e s H.
+  - exists Fuel. split; [reflexivity|left; exact I].
+  - assert (Hlit : forall t, lit_ty e = Some t ->
+               exists r, eval P eps (S n) e s = ([], r) /\ (tolr r \/ exists v, r = Ok (v, s))).
+    { intros t Et. destruct (lit_ty_eval P eps (S n) e s t Et) as [F|[v [Ev _]]]; rewrite ?F, ?Ev;
+        eexists; (split; [reflexivity|]); [left; exact I|right; eexists; reflexivity]. }
+    destruct e; cbn [pure_total] in H;
+      try (match type of H with (match ?x with _ => _ end) = true => destruct x eqn:El end;
+           [eapply Hlit; reflexivity|discriminate]).
+    + (* EInterp *)
+      rewrite eval_S. cbn [eval_body].
+      destruct (interp_res (env s) segs) as [[b E]|E]; rewrite E; unfold lift.
+      * rewrite bindM_ret_nil. eexists. split; [reflexivity|]. right. eexists. reflexivity.
+      * eexists. split; [reflexivity|]. left. exact I.
+    + (* EVar *)
+      rewrite eval_S. cbn [eval_body]. destruct (lookup_env l n0 (env s)).
+      * eexists. split; [reflexivity|]. right. eexists. reflexivity.
+      * eexists. split; [reflexivity|]. left. exact I.
+    + (* EArr *)
+      rewrite eval_S. cbn [eval_body].
+      destruct (evals_pt (eval P eps n) IH es s H) as [r [E [T|[vs Evs]]]]; rewrite E.
+      * exists (match r with Ok _ => Fuel | Err e => Err e | Panic p => Panic p | Fuel => Fuel | Unsupp => Unsupp end).
+        destruct r; cbn in T; try contradiction; cbn; split; auto.
+      * subst r. rewrite bindM_ret_nil. eexists. split; [reflexivity|]. right. eexists. reflexivity.
+Qed.
+
+(* a statement c_p1 drops from a live position does nothing the projection can see *)
+Lemma pruned_exec c P eps n t s :
+  pruned_ok c t = true -> st_ok c s ->
+  (c_nr c = true /\ tolr (snd (exec P eps n t s))) \/
+  exists s', exec P eps n t s = ([], Ok (FNormal, s')) /\ proj c s' = proj c s /\ st_ok c s'.
+Proof.
+  intros Hp Hs. destruct t; cbn [pruned_ok] in Hp; try discriminate.
+  - destruct l as [d|]; [|discriminate]. apply andb_prop in Hp. destruct Hp as [Hp Hpt].
+    apply andb_prop in Hp. destruct Hp as [Hnr Hd].
+    destruct n as [|n]; [left; split; [exact Hnr|exact I]|].
+    rewrite exec_S. cbn [exec_body].
+    destruct (pure_total_eval P eps n e s Hpt) as [r [E [T|[v Ev]]]]; rewrite E.
+    + left. split; [exact Hnr|]. apply tolr_bind. exact T.
+    + subst r. rewrite bindM_ret_nil. right. eexists. split; [reflexivity|]. split; [|exact Hs].
+      unfold proj. cbn [env fns with_env]. rewrite (define_env_dead c _ _ _ _ Hd). reflexivity.
+  - destruct l as [d|]; [|discriminate]. apply andb_prop in Hp. destruct Hp as [Hp Hpt].
+    apply andb_prop in Hp. destruct Hp as [Hnr Hd].
+    destruct n as [|n]; [left; split; [exact Hnr|exact I]|].
+    rewrite exec_S. cbn [exec_body].
+    destruct (pure_total_eval P eps n e s Hpt) as [r [E [T|[v Ev]]]]; rewrite E.
+    + left. split; [exact Hnr|]. apply tolr_bind. exact T.
+    + subst r. rewrite bindM_ret_nil.
+      destruct (assign_env (Some d) n0 v (env s)) as [e'|] eqn:Ea.
+      * right. eexists. split; [reflexivity|]. split; [|exact Hs].
+        unfold proj. cbn [env fns with_env]. rewrite (assign_env_dead c _ _ _ _ _ Hd Ea). reflexivity.
+      * left. split; [exact Hnr|exact I].
+Qed.
+
+(* ------------------------------------------------------------------------------------ *)
+(* E. the simulation, by induction on fuel                                                *)
+
+Section Main.
+Variable c : pcfg.
+Variable eps : f64.
+Hypothesis Hcfg : cfg_ok c = true.
+
+Notation simc := (simM (c_nr c = true) (pj c) (okS c)).
+
+Lemma main_sim n :
+  (forall e s, expr_ok c e = true -> st_ok c s ->
+               simc (eval (c_p1 c) eps n e (proj c s)) (eval (c_p2 c) eps n e s)) /\
+  (forall t s, stmt_ok c t = true -> st_ok c s ->
+               simc (exec (c_p1 c) eps n t (proj c s)) (exec (c_p2 c) eps n t s)) /\
+  (forall cnd b s, expr_ok c cnd = true -> block_ok c true b = true -> st_ok c s ->
+               simc (exec_loop (c_p1 c) eps n cnd b (proj c s)) (exec_loop (c_p2 c) eps n cnd b s)) /\
+  (forall b s, block_ok c true b = true -> st_ok c s ->
+               simc (exec_block (c_p1 c) eps n b (proj c s)) (exec_block (c_p2 c) eps n b s)).
+Proof.
+  induction n as [|n (IHe & IHt & IHl & IHb)].
+  - refine (conj _ (conj _ (conj _ _))); intros; apply sim_fuel.
+  - refine (conj _ (conj _ (conj _ _))).
+    + intros e s He Hs. rewrite !eval_S. apply eval_body_sim; assumption.
+    + intros t s Ht Hs. rewrite !exec_S. apply exec_body_sim; assumption.
+    + intros cnd b s Hc Hb Hs. rewrite !exec_loop_S. apply loop_body_sim; assumption.
+    + intros b s Hb Hs. rewrite !exec_block_S. apply block_body_sim; try assumption.
+      * intros t s0 Hp Hs0. apply pruned_exec; assumption.
+      * intros t s0 o s' Hn Hr. exact (proj1 (nn_sound (c_p2 c) eps n) t s0 o s' Hn Hr).
+Qed.
+
+Lemma st_ok_init : st_ok c init_st.
+Proof. intros sc f [E|[]] Hf. subst sc. destruct Hf. Qed.
+
+Lemma proj_init : proj c init_st = init_st.
+Proof. reflexivity. Qed.
+
+End Main.
+
+Definition res_ending {A} (r : res A) : ending :=
+  match r with
+  | Ok _ => Done | Err e => RtErr e | Panic ps => Panicked ps | Fuel => EFuel | Unsupp => Unsupported
+  end.
+
+Lemma run_impl_eq p eps fuel prog :
+  run_impl p eps fuel prog =
+  (fst (exec_block p eps fuel prog init_st), res_ending (snd (exec_block p eps fuel prog init_st))).
+Proof. unfold run_impl. destruct (exec_block p eps fuel prog init_st) as [o r]. reflexivity. Qed.
+
+(* The general statement: dropping the covered entries of plan c_p1 (leaving c_p2) does not
+   change the run.  With c_nr = false the two runs are equal without exception. *)
+Theorem prune_residual_sound_lemma c prog eps fuel o e :
+  covered_ok c prog = true ->
+  run_impl (c_p2 c) eps fuel prog = (o, e) ->
+  (c_nr c = true -> tol_ending e = false) ->
+  run_impl (c_p1 c) eps fuel prog = (o, e).
+Proof.
+  unfold covered_ok. intros H Hrun Htol. apply andb_prop in H. destruct H as [Hcfg Hb].
+  destruct (main_sim c eps Hcfg fuel) as (_ & _ & _ & Hblk).
+  specialize (Hblk prog init_st Hb (st_ok_init c)). rewrite proj_init in Hblk.
+  rewrite run_impl_eq in Hrun. rewrite run_impl_eq.
+  destruct (exec_block (c_p2 c) eps fuel prog init_st) as [o2 r2]. cbn [fst snd] in Hrun.
+  inversion Hrun; subst o e. clear Hrun.
+  destruct Hblk as [[HS Ht]|[E _]].
+  - exfalso. specialize (Htol HS). cbn [snd] in Ht.
+    destruct r2 as [a|e|p| |]; cbn in Ht, Htol; try contradiction; try discriminate.
+    destruct p; try contradiction; discriminate.
+  - rewrite E. unfold mapR. cbn [fst snd]. destruct r2; reflexivity.
+Qed.
+
+(* ------------------------------------------------------------------------------------ *)
+(* F. induction principles for the nested syntax                                          *)
+
+Section ExprInd.
+Variable Pe : expr -> Prop.
+Hypothesis HNum : forall x, Pe (ENum x).
+Hypothesis HStr : forall s, Pe (EStr s).
+Hypothesis HInterp : forall segs, Pe (EInterp segs).
+Hypothesis HBool : forall b, Pe (EBool b).
+Hypothesis HNull : Pe ENull.
+Hypothesis HVar : forall n l, Pe (EVar n l).
+Hypothesis HBin : forall op a b, Pe a -> Pe b -> Pe (EBin op a b).
+Hypothesis HUn : forall op a, Pe a -> Pe (EUn op a).
+Hypothesis HArr : forall es, Forall Pe es -> Pe (EArr es).
+Hypothesis HIdx : forall a i, Pe a -> Pe i -> Pe (EIdx a i).
+Hypothesis HMember : forall o f, Pe o -> Pe (EMember o f).
+Hypothesis HCall : forall callee args t, Pe callee -> Forall Pe args -> Pe (ECall callee args t).
+
+Fixpoint expr_ind2 (e : expr) : Pe e :=
+  let all := fix all (l : list expr) : Forall Pe l :=
+    match l with
+    | [] => Forall_nil Pe
+    | x :: r => Forall_cons x (expr_ind2 x) (all r)
+    end in
+  match e with
+  | ENum x => HNum x
+  | EStr s => HStr s
+  | EInterp segs => HInterp segs
+  | EBool b => HBool b
+  | ENull => HNull
+  | EVar n l => HVar n l
+  | EBin op a b => HBin op a b (expr_ind2 a) (expr_ind2 b)
+  | EUn op a => HUn op a (expr_ind2 a)
+  | EArr es => HArr es (all es)
+  | EIdx a i => HIdx a i (expr_ind2 a) (expr_ind2 i)
+  | EMember o f => HMember o f (expr_ind2 o)
+  | ECall callee args t => HCall callee args t (expr_ind2 callee) (all args)
+  end.
+End ExprInd.
+
+Section StmtInd.
+Variable Ps : stmt -> Prop.
+Variable Pb : list stmt -> Prop.
+Hypothesis Hnil : Pb [].
+Hypothesis Hcons : forall t r, Ps t -> Pb r -> Pb (t :: r).
+Hypothesis HFun : forall i n ps body fid ls ll, Pb body -> Ps (SFun i n ps body fid ls ll).
+Hypothesis HMake : forall i n l e, Ps (SMake i n l e).
+Hypothesis HSet : forall i n l e, Ps (SSet i n l e).
+Hypothesis HSetIdx : forall i t e, Ps (SSetIdx i t e).
+Hypothesis HIf : forall i c th, Pb th -> Ps (SIf i c th None).
+Hypothesis HIfElse : forall i c th el, Pb th -> Pb el -> Ps (SIf i c th (Some el)).
+Hypothesis HLoop : forall i c b, Pb b -> Ps (SLoop i c b).
+Hypothesis HBlock : forall i b, Pb b -> Ps (SBlock i b).
+Hypothesis HRet : forall i e, Ps (SRet i e).
+Hypothesis HBreak : forall i, Ps (SBreak i).
+Hypothesis HNext : forall i, Ps (SNext i).
+Hypothesis HExpr : forall i e, Ps (SExpr i e).
+
+Fixpoint stmt_ind2 (t : stmt) : Ps t :=
+  let blk := fix blk (b : list stmt) : Pb b :=
+    match b with
+    | [] => Hnil
+    | x :: r => Hcons x r (stmt_ind2 x) (blk r)
+    end in
+  match t with
+  | SFun i n ps body fid ls ll => HFun i n ps body fid ls ll (blk body)
+  | SMake i n l e => HMake i n l e
+  | SSet i n l e => HSet i n l e
+  | SSetIdx i tg e => HSetIdx i tg e
+  | SIf i c th None => HIf i c th (blk th)
+  | SIf i c th (Some el) => HIfElse i c th el (blk th) (blk el)
+  | SLoop i c b => HLoop i c b (blk b)
+  | SBlock i b => HBlock i b (blk b)
+  | SRet i e => HRet i e
+  | SBreak i => HBreak i
+  | SNext i => HNext i
+  | SExpr i e => HExpr i e
+  end.
+
+Fixpoint block_ind2 (b : list stmt) : Pb b :=
+  match b with
+  | [] => Hnil
+  | x :: r => Hcons x r (stmt_ind2 x) (block_ind2 r)
+  end.
+End StmtInd.
+
+(* ------------------------------------------------------------------------------------ *)
+(* G. the unreachable class                                                               *)
+
+Lemma existsb_ext_in {A} (f g : A -> bool) l :
+  (forall x, In x l -> f x = g x) -> existsb f l = existsb g l.
+Proof.
+  induction l as [|a r IH]; intros H; [reflexivity|]. cbn. rewrite (H a (or_introl eq_refl)).
+  rewrite IH; [reflexivity|]. intros x Hx. apply H. right. exact Hx.
+Qed.
+
+Lemma nn_p_none t : nn_p None t = never_normal t.
+Proof.
+  apply (stmt_ind2 (fun t => nn_p None t = never_normal t)
+                   (fun b => forall x, In x b -> nn_p None x = never_normal x)); try reflexivity.
+  - intros x [].
+  - intros t0 r Ht Hr x [E|Hx]; [subst; exact Ht|apply Hr; exact Hx].
+  - intros i c th el Hth Hel. cbn [nn_p never_normal]. f_equal; apply existsb_ext_in; intros x Hx;
+      cbn [in_plan_stmt negb]; rewrite andb_true_r; auto.
+  - intros i b Hb. cbn [nn_p never_normal]. apply existsb_ext_in. intros x Hx.
+    cbn [in_plan_stmt negb]. rewrite andb_true_r. auto.
+Qed.
+
+Lemma expr_ok_triv c e : c_dead c = [] -> c_all c = true -> expr_ok c e = true.
+Proof.
+  intros Hd Ha.
+  assert (Hv : forall l, var_ok c l = true) by (intros [i|]; unfold var_ok; rewrite Hd; reflexivity).
+  apply (expr_ind2 (fun e => expr_ok c e = true)); cbn [expr_ok]; intros; auto.
+  - apply forallb_forall. intros [b|n l] _; cbn; auto.
+  - rewrite H, H0. reflexivity.
+  - apply forallb_forall. rewrite Forall_forall in H. exact H.
+  - rewrite H, H0. reflexivity.
+  - rewrite Forall_forall in H0. rewrite (proj2 (forallb_forall _ _) H0). cbn [andb].
+    destruct callee; auto; try (cbn [expr_ok] in H; exact H).
+    destruct (global_builtin n); [reflexivity|]. unfold call_ok. rewrite Ha. destruct t; reflexivity.
+Qed.
+
+Definition disj (ss l : list Z) : Prop := forall i, In i ss -> ~ In i l.
+
+Lemma disj_app_l ss a b : disj ss (a ++ b) -> disj ss a.
+Proof. intros H i Hi Ha. apply (H i Hi). apply in_or_app. left. exact Ha. Qed.
+Lemma disj_app_r ss a b : disj ss (a ++ b) -> disj ss b.
+Proof. intros H i Hi Hb. apply (H i Hi). apply in_or_app. right. exact Hb. Qed.
+
+Lemma ids_block_cons f lv x r :
+  ids_block_with f lv (x :: r) = f lv x ++ ids_block_with f (lv && negb (never_normal x)) r.
+Proof. reflexivity. Qed.
+
+Lemma unreach_ok ss :
+  forall b live, disj ss (ids_block_with lids live b) -> block_ok (ucfg ss) live b = true.
+Proof.
+  set (c := ucfg ss).
+  assert (He : forall e, expr_ok c e = true) by (intros; apply expr_ok_triv; reflexivity).
+  assert (Hv : forall l, var_ok c l = true) by (intros [i|]; reflexivity).
+  apply (block_ind2
+    (fun t => forall live, disj ss (lids live t) -> live = true \/ is_fun t = true -> stmt_ok c t = true)
+    (fun b => forall live, disj ss (ids_block_with lids live b) -> block_ok c live b = true)).
+  - reflexivity.
+  - intros t r Ht Hr live Hd. rewrite ids_block_cons in Hd. rewrite block_ok_cons.
+    apply andb_true_intro. split.
+    + unfold item_ok, item_ok_with. apply andb_true_intro. split.
+      * destruct (is_fun t) eqn:Ef; [|reflexivity]. apply (Ht live); [eapply disj_app_l; exact Hd|right; reflexivity].
+      * destruct live; [|reflexivity]. cbn [c_p2 c ucfg in_plan_stmt].
+        destruct (in_plan_stmt (c_p1 c) (stmt_sid t)) eqn:Ep.
+        -- exfalso. cbn [c_p1 c ucfg in_plan_stmt] in Ep. destruct (stmt_sid t) as [i|] eqn:Es; [|discriminate].
+           apply existsb_exists in Ep. destruct Ep as [x [Hx E]]. apply Z.eqb_eq in E. subst x.
+           apply (disj_app_l _ _ _ Hd i Hx).
+           destruct t; cbn [lids stmt_sid] in *; rewrite Es; left; reflexivity.
+        -- apply (Ht true); [eapply disj_app_l; exact Hd|left; reflexivity].
+    + unfold next_live. cbn [c_p2 c ucfg in_plan_stmt negb]. rewrite andb_true_r, nn_p_none.
+      apply Hr. eapply disj_app_r. exact Hd.
+  - (* SFun *)
+    intros i n ps body fid ls ll Hb live Hd _. cbn [stmt_ok]. cbn [fn_live c ucfg c_all orb].
+    apply andb_true_intro. split; [|reflexivity]. apply (Hb true).
+    cbn [lids] in Hd. eapply disj_app_r. exact Hd.
+  - intros. cbn [stmt_ok]. rewrite Hv, He. reflexivity.
+  - intros. cbn [stmt_ok]. rewrite Hv, He. reflexivity.
+  - intros. cbn [stmt_ok]. rewrite !He. reflexivity.
+  - (* SIf, no else *)
+    intros i cnd th Hth live Hd [El|Ef]; [subst live|discriminate Ef]. cbn [stmt_ok]. rewrite He. cbn [andb].
+    rewrite andb_true_r. apply (Hth true). cbn [lids] in Hd. apply disj_app_r in Hd. rewrite app_nil_r in Hd. exact Hd.
+  - (* SIf with else *)
+    intros i cnd th el Hth Hel live Hd [El|Ef]; [subst live|discriminate Ef]. cbn [stmt_ok]. rewrite He. cbn [andb].
+    cbn [lids] in Hd. apply disj_app_r in Hd.
+    pose proof (Hth true (disj_app_l _ _ _ Hd)) as X1. pose proof (Hel true (disj_app_r _ _ _ Hd)) as X2.
+    unfold block_ok in X1, X2. rewrite X1, X2. reflexivity.
+  - intros i cnd b Hb live Hd [El|Ef]; [subst live|discriminate Ef]. cbn [stmt_ok]. rewrite He. cbn [andb].
+    apply (Hb true). cbn [lids] in Hd. eapply disj_app_r. exact Hd.
+  - intros i b Hb live Hd [El|Ef]; [subst live|discriminate Ef]. cbn [stmt_ok].
+    apply (Hb true). cbn [lids] in Hd. eapply disj_app_r. exact Hd.
+  - intros i [e|] live _ _; cbn [stmt_ok]; auto.
+  - reflexivity.
+  - reflexivity.
+  - intros. cbn [stmt_ok]. apply He.
+Qed.
+
+Theorem prune_unreachable_sound_lemma prog ss eps fuel :
+  (forall i, In i ss -> prunable_unreachable prog i = true) ->
+  run_impl (Some (ss, [])) eps fuel prog = run_impl None eps fuel prog.
+Proof.
+  intros H. destruct (run_impl None eps fuel prog) as [o e] eqn:E.
+  apply (prune_residual_sound_lemma (ucfg ss) prog eps fuel o e); [|exact E|intros X; discriminate X].
+  unfold covered_ok. apply andb_true_intro. split; [reflexivity|].
+  apply unreach_ok. intros i Hi Hin. specialize (H i Hi). unfold prunable_unreachable in H.
+  apply negb_true_iff in H. unfold live_ids_block in H.
+  assert (memz i (ids_block_with lids true prog) = true); [|congruence].
+  unfold memz. apply existsb_exists. exists i. split; [exact Hin|apply Z.eqb_refl].
+Qed.
+
+(* ------------------------------------------------------------------------------------ *)
+(* H. what follows a never-normal statement in its block is never executed               *)
+
+Lemma hoist_nofun P b s : forallb (fun x => negb (is_fun x)) b = true -> hoist P b s = Ok s.
+Proof.
+  revert s. induction b as [|a r IH]; intros s H; [reflexivity|]. cbn [forallb] in H.
+  apply andb_prop in H. destruct H as [Ha Hr]. destruct a; cbn [is_fun negb] in Ha; try discriminate;
+    cbn [hoist]; apply IH; exact Hr.
+Qed.
+
+Lemma hoist_app P a b s :
+  hoist P (a ++ b) s = match hoist P a s with Ok s1 => hoist P b s1 | r => r end.
+Proof.
+  revert s. induction a as [|x r IH]; intros s; [reflexivity|]. cbn [app].
+  destruct x; cbn [hoist]; try apply IH.
+  destruct (in_plan_fn P fid); [apply IH|]. destruct (fns s); [reflexivity|apply IH].
+Qed.
+
+Lemma bindM_ext_ok {A B} (m : M A) (f g : A -> M B) :
+  (forall o a, m = (o, Ok a) -> f a = g a) -> bindM m f = bindM m g.
+Proof.
+  destruct m as [o r]. destruct r; cbn; intros H; try reflexivity. rewrite (H o a eq_refl). reflexivity.
+Qed.
+
+Lemma stmts_dead_suffix P ex pre t rest rest' :
+  (forall s o s', ex t s = (o, Ok (FNormal, s')) -> False) ->
+  in_plan_stmt P (stmt_sid t) = false ->
+  forall s, stmts_with P ex (pre ++ t :: rest) s = stmts_with P ex (pre ++ t :: rest') s.
+Proof.
+  intros Hex Hnp. induction pre as [|x r IH]; intros s; cbn [app stmts_with].
+  - rewrite Hnp. apply bindM_ext_ok. intros o [fl s'] E. destruct fl; try reflexivity.
+    exfalso. eapply Hex. exact E.
+  - destruct (in_plan_stmt P (stmt_sid x)); [apply IH|].
+    apply bindM_ext_ok. intros o [fl s'] _. destruct fl; try reflexivity. apply IH.
+Qed.
+
+Theorem unreachable_never_runs_lemma P eps fuel pre t rest rest' s :
+  nn_p P t = true -> in_plan_stmt P (stmt_sid t) = false ->
+  forallb (fun x => negb (is_fun x)) rest = true ->
+  forallb (fun x => negb (is_fun x)) rest' = true ->
+  exec_block P eps fuel (pre ++ t :: rest) s = exec_block P eps fuel (pre ++ t :: rest') s.
+Proof.
+  intros Hn Hp Hr Hr'. destruct fuel as [|n]; [reflexivity|]. rewrite !exec_block_S. unfold block_body.
+  assert (Hh : hoist P (pre ++ t :: rest) (push_scope [] s) = hoist P (pre ++ t :: rest') (push_scope [] s)).
+  { rewrite !hoist_app. destruct (hoist P pre (push_scope [] s)) as [s1| | | |]; try reflexivity.
+    assert (Ht : is_fun t = false) by (destruct t; cbn in Hn; try discriminate; reflexivity).
+    rewrite (hoist_nofun P (t :: rest)), (hoist_nofun P (t :: rest')); try reflexivity;
+      cbn [forallb]; rewrite Ht; assumption. }
+  rewrite Hh. apply bindM_ext_ok. intros o s1 _. apply stmts_dead_suffix; [|exact Hp].
+  intros s0 o0 s' E. exact (proj1 (nn_sound P eps n) t s0 o0 s' Hn E).
+Qed.
+
+Theorem unreachable_never_runs_top prog_pre t rest rest' eps fuel :
+  never_normal t = true ->
+  forallb (fun x => negb (is_fun x)) rest = true ->
+  forallb (fun x => negb (is_fun x)) rest' = true ->
+  run_impl None eps fuel (prog_pre ++ t :: rest) = run_impl None eps fuel (prog_pre ++ t :: rest').
+Proof.
+  intros Hn Hr Hr'. unfold run_impl.
+  rewrite (unreachable_never_runs_lemma None eps fuel prog_pre t rest rest' init_st); auto.
+  rewrite nn_p_none. exact Hn.
+Qed.
+
+(* ------------------------------------------------------------------------------------ *)
+(* I. the class theorems                                                                  *)
+
+Theorem prune_unused_fn_sound_lemma prog fs live eps fuel :
+  unused_fns_ok prog fs live = true ->
+  run_impl (Some ([], fs)) eps fuel prog = run_impl None eps fuel prog.
+Proof.
+  intros H. destruct (run_impl None eps fuel prog) as [o e] eqn:E.
+  exact (prune_residual_sound_lemma (fcfg fs live) prog eps fuel o e H E (fun X => False_ind _ (diff_false_true X))).
+Qed.
+
+Theorem prune_never_read_sound_lemma prog ss dead eps fuel o e :
+  never_read_ok prog ss dead = true ->
+  run_impl None eps fuel prog = (o, e) -> tol_ending e = false ->
+  run_impl (Some (ss, [])) eps fuel prog = (o, e).
+Proof.
+  intros H E T. exact (prune_residual_sound_lemma (ncfg ss dead) prog eps fuel o e H E (fun _ => T)).
+Qed.
+
+Theorem plan_ok_sound_lemma prog ss fs eps fuel o e :
+  v_checked (plan_ok prog ss fs) = true ->
+  run_impl (Some (v_residual (plan_ok prog ss fs))) eps fuel prog = (o, e) ->
+  tol_ending e = false ->
+  run_impl (Some (ss, fs)) eps fuel prog = (o, e).
+Proof.
+  unfold plan_ok. cbv zeta. cbn [v_checked v_residual]. intros H E T.
+  exact (prune_residual_sound_lemma _ prog eps fuel o e H E (fun _ => T)).
+Qed.
+
+Lemma empty_plan_is_none prog eps fuel :
+  run_impl (Some ([], [])) eps fuel prog = run_impl None eps fuel prog.
+Proof. apply prune_unreachable_sound_lemma. intros i []. Qed.
+
+Theorem plan_ok_full_lemma prog ss fs eps fuel o e :
+  v_checked (plan_ok prog ss fs) = true ->
+  v_residual (plan_ok prog ss fs) = ([], []) ->
+  run_impl None eps fuel prog = (o, e) ->
+  tol_ending e = false ->
+  run_impl (Some (ss, fs)) eps fuel prog = (o, e).
+Proof.
+  intros H R E T. apply plan_ok_sound_lemma; try assumption.
+  rewrite R, empty_plan_is_none. exact E.
+Qed.
+
+(* ------------------------------------------------------------------------------------ *)
+(* J. the wider class PureNoTrap of classify_expr: no output, no state change — but not
+      total: operators on variables can still end in Type mismatch                        *)
+
+Definition pureM {A} (m : M (A * st)) (s : st) : Prop :=
+  fst m = [] /\ forall a s', snd m = Ok (a, s') -> s' = s.
+
+Lemma pure_ret {A} (a : A) s : pureM (OkM (a, s)) s.
+Proof. split; [reflexivity|]. intros a' s' E. inversion E. reflexivity. Qed.
+Lemma pure_fail {A} (r : res (A * st)) s : (forall x, r <> Ok x) -> pureM ([], r) s.
+Proof. intros H. split; [reflexivity|]. intros a s' E. cbn in E. exfalso. eapply H. exact E. Qed.
+
+Ltac pfail := apply pure_fail; let x := fresh "x" in let E := fresh "E" in intros x E; discriminate E.
+
+Lemma pure_bind {A B} (m : M (A * st)) (f : A * st -> M (B * st)) s :
+  pureM m s -> (forall a, pureM (f (a, s)) s) -> pureM (bindM m f) s.
+Proof.
+  destruct m as [o r]. intros [Ho Hs] Hf. cbn [fst] in Ho. subst o.
+  destruct r as [[a s1]| | | |]; cbn [bindM]; try (pfail).
+  cbn [snd] in Hs. rewrite (Hs a s1 eq_refl). specialize (Hf a). destruct (f (a, s)) as [o2 r2].
+  destruct Hf as [H1 H2]. cbn [fst snd] in *. subst o2. split; [reflexivity|exact H2].
+Qed.
+
+Lemma pure_lift {A B} (r : res A) (f : A -> M (B * st)) s :
+  (forall a, pureM (f a) s) -> pureM (bindM (lift r) f) s.
+Proof.
+  intros Hf. unfold lift. destruct r as [a| | | |]; cbn [bindM]; try (pfail).
+  specialize (Hf a). destruct (f a) as [o2 r2]. destruct Hf as [H1 H2]. cbn [fst snd] in *. subst o2.
+  split; [reflexivity|exact H2].
+Qed.
+
+Lemma evals_pure (ev : expr -> st -> M (value * st)) :
+  (forall e s, pure_notrap_expr e = true -> pureM (ev e s) s) ->
+  forall es s, forallb pure_notrap_expr es = true -> pureM (evals_with ev es s) s.
+Proof.
+  intros Hev. induction es as [|a r IH]; intros s H; cbn [evals_with forallb] in *; [apply pure_ret|].
+  apply andb_prop in H. destruct H as [Ha Hr]. apply pure_bind; [apply Hev; exact Ha|].
+  intros v. apply pure_bind; [apply IH; exact Hr|]. intros vs. apply pure_ret.
+Qed.
+
+Theorem pure_notrap_no_effect_lemma P eps n :
+  forall e s, pure_notrap_expr e = true -> pureM (eval P eps n e s) s.
+Proof.
+  induction n as [|n IH]; intros e s H.
+  - apply pure_fail. intros x E. discriminate E.
+  - rewrite eval_S. destruct e; cbn [pure_notrap_expr] in H; try discriminate; cbn [eval_body];
+      try apply pure_ret.
+    + apply pure_lift. intros b. apply pure_ret.
+    + destruct (lookup_env l n0 (env s)); [apply pure_ret|pfail].
+    + destruct op; try discriminate; apply andb_prop in H; destruct H as [H1 H2].
+      1-3, 6-8: (apply pure_bind; [apply IH; exact H1|]; intros l; apply pure_bind; [apply IH; exact H2|];
+                 intros r; apply pure_lift; intros v; apply pure_ret).
+      * apply pure_bind; [apply IH; exact H1|]. intros l.
+        destruct l as [| |[|]| |]; try apply pure_ret;
+          (apply pure_bind; [apply IH; exact H2|]; intros r; destruct r; try apply pure_ret;
+           pfail).
+      * apply pure_bind; [apply IH; exact H1|]. intros l.
+        destruct l as [| |[|]| |]; try apply pure_ret;
+          (apply pure_bind; [apply IH; exact H2|]; intros r; destruct r; try apply pure_ret;
+           pfail).
+    + apply pure_bind; [apply IH; exact H|]. intros v.
+      destruct op, v; try apply pure_ret; pfail.
+    + apply pure_bind; [apply (evals_pure _ IH); exact H|]. intros vs. apply pure_ret.
+Qed.
